@@ -152,6 +152,9 @@ class DomainPredicates:
             if any(map(lambda pre: pre in self._not_static, graph.predecessors(node))):
                 self._not_static.add(node)
 
+        ### the instance can add atoms of input predicates, their rules do not describe the domain
+        self._too_complex.update(self.unique_names.input_predicates & self._not_static)
+
     def is_static(self, pred: Predicate) -> bool:
         """
         returns true if predicate can be computed statically
